@@ -205,6 +205,7 @@ func skipperCase(c *mon.Ctx, idx int64, s *gen.Stream, ref []*astits.Packet, pr 
 	calls := 0
 	var problems []string
 	var decisions []bool
+	var shown []*astits.Packet // header and adaptation field as they were at consultation time, for the packets that were kept
 	// packets the reference decoder rejects (a damaged adaptation field) cannot be offered to the predicate "fully parsed": the
 	// k-th consultation belongs to the k-th well-formed packet
 	var wf []int
@@ -228,6 +229,9 @@ func skipperCase(c *mon.Ctx, idx int64, s *gen.Stream, ref []*astits.Packet, pr 
 		}
 		dec := pr.f(k, p)
 		decisions = append(decisions, dec)
+		if !dec {
+			shown = append(shown, mon.Clone(got))
+		}
 		return dec
 	}
 	cfg := baseCfg(api)
@@ -265,6 +269,27 @@ func skipperCase(c *mon.Ctx, idx int64, s *gen.Stream, ref []*astits.Packet, pr 
 	base := RunDemux(filtered, baseCfg(api))
 	if d := itemsEqualNoPos(run.Items, base.Items); d != "" {
 		c.Violate("C19/skipper/differs-from-filtered-stream:"+pr.name+":"+api, "streams", idx, d, data)
+	}
+	// "fully parsed": what the predicate was shown is what NextPacket then returns for the same packet, every field of the header
+	// and the adaptation field included (nothing is filled in after the predicate has looked). Judged on streams without damaged
+	// packets and error items, where the k-th kept packet is the k-th item
+	if api == "packet" && len(wf) == len(ref) {
+		clean := len(run.Items) == len(shown)
+		for _, it := range run.Items {
+			if it.Err != nil || it.Packet == nil {
+				clean = false
+			}
+		}
+		if clean {
+			for k, sh := range shown {
+				ret := &astits.Packet{Header: run.Items[k].Packet.Header, AdaptationField: run.Items[k].Packet.AdaptationField}
+				if d := mon.Diff(sh, ret, nil); d != "" {
+					c.Violate("C19/skipper/argument-completed-after-consultation", "streams", idx, fmt.Sprintf("kept packet %d: shown vs returned: %s", k, d), data)
+					break
+				}
+			}
+			c.Add("kept_packets_compared_with_what_the_predicate_saw", int64(len(shown)))
+		}
 	}
 	if api == "packet" {
 		for _, it := range run.Items {
